@@ -164,3 +164,52 @@ def name_for_binders(body, counts):
         counts['R2'] = counts.get('R2', 0) + 1
         return f"for _i{n[0]} in "
     return re.sub(r'\bfor _ in ', rep, body)
+
+
+def find_loops(body):
+    """[(start, brace_open, brace_close)] of for/while/loop statements in source order"""
+    src = Source(body)
+    loops = []
+    for m in re.finditer(r'\b(for|while|loop)\b', body):
+        if not src.mask[m.start()]:
+            continue
+        i = m.end()
+        depth = 0
+        while i < len(body):
+            if src.mask[i]:
+                if body[i] in '([':
+                    depth += 1
+                elif body[i] in ')]':
+                    depth -= 1
+                elif body[i] == '{' and depth == 0:
+                    break
+            i += 1
+        loops.append((m.start(), i, src.match_close(i)))
+    return loops
+
+
+def weave_power_loops(body, op, view, inv_tmpl, counts, extra_inv=''):
+    """Every loop of the shape `for _iN in A..B { X.<op>(); }` (A, B literals) gets
+         let ghost e_N = X.<view>;            (before)
+         invariant  <inv_tmpl(X, _iN - A, e_N)>  (loop)
+         assert(pow2(B-A) == 2^(B-A)) by(compute)   (after)
+    Any other loop shape makes the function unsupported."""
+    loops = find_loops(body)
+    for (st, bo, bc) in sorted(loops, reverse=True):
+        header = body[st:bo]
+        inner = body[bo + 1:bc].strip()
+        mh = re.fullmatch(r'for\s+(_i\d+)\s+in\s+(\d+)\s*\.\.\s*(\d+)\s*', header)
+        mb = re.fullmatch(r'([A-Za-z_][A-Za-z0-9_]*)\s*\.\s*' + op + r'\s*\(\s*\)\s*;', inner)
+        if not mh or not mb:
+            raise Unsupported(f"loop shape not covered by the tracking generator: {header.strip()} {{ {inner[:60]} }}")
+        iv, a, b = mh.group(1), int(mh.group(2)), int(mh.group(3))
+        x = mb.group(1)
+        n = b - a
+        g = f"e{iv}"
+        idx = f"({iv} - {a})" if a else iv
+        inv = f"    invariant {inv_tmpl(x, idx, g)}{extra_inv}\n"
+        after = f" proof {{ assert(pow2({n}) == {2 ** n}) by(compute); }} "
+        before = f" let ghost {g} = {x}.{view}; "
+        body = body[:st] + before + body[st:bo] + "\n" + inv + body[bo:bc + 1] + after + body[bc + 1:]
+        counts['loops'] = counts.get('loops', 0) + 1
+    return body
